@@ -14,6 +14,7 @@ import (
 	"errors"
 	"fmt"
 	"testing"
+	"time"
 
 	"github.com/alicebob/miniredis/v2"
 	"github.com/zeromicro/go-zero/core/stores/redis"
@@ -40,18 +41,41 @@ func TestVerifC07CacheNode(t *testing.T) {
 		if sfd := cfg.Str("sfd", "-"); sfd != "-" {
 			barrier = verifc07.NewSlowSF(sfd, barrier.Do, barrier.DoEx)
 		}
-		node := NewNode(rds, barrier, st, errNotFound)
+		// objs nodes over the same redis SHARING one flight group, as sqlc / monc hand one process-wide group to every
+		// node they build (the cache keys of node i are "c07:<100*i+n>": distinct per node, so are the flights);
+		// opt: the constructor's options (1: WithExpiry, 2: WithExpiry + WithNotFoundExpiry)
+		n := cfg.Int("objs", 1)
+		var nodes []Cache
+		for i := 0; i < n; i++ {
+			var opts []Option
+			switch cfg.Int("opt", 0) {
+			case 1:
+				opts = append(opts, WithExpiry(time.Hour))
+			case 2:
+				opts = append(opts, WithExpiry(2*time.Hour), WithNotFoundExpiry(time.Minute))
+			}
+			nodes = append(nodes, NewNode(rds, barrier, st, errNotFound, opts...))
+		}
 		return verifc07.Target{
 			Invoke: func(c *verifc07.Call, fn func() (any, error)) (any, string, error) {
 				var row c07Row
-				err := node.Take(&row, fmt.Sprintf("c07:%d", c.Key()), func(v any) error {
+				node := nodes[(c.Key()/100)%n]
+				key := fmt.Sprintf("c07:%d", c.Key())
+				load := func(v any) error {
 					x, e := fn()
 					if e != nil {
 						return e
 					}
 					v.(*c07Row).ID = x.(*verifc07.Res).ID
 					return nil
-				})
+				}
+				var err error
+				if c.Ex() {
+					// the second entry point into doTake
+					err = node.TakeWithExpire(&row, key, func(v any, _ time.Duration) error { return load(v) })
+				} else {
+					err = node.Take(&row, key, load)
+				}
 				if err != nil {
 					return nil, "-", err
 				}
